@@ -77,6 +77,13 @@ func (c08) Gen(seed uint64, idx int, tier string) *Scenario {
 		gen.AddPlant(r, p, kind, cfg)
 		sc.Class = kind
 	}
+	if idx%16 == 5 {
+		// a character that cannot start a token as the very first thing of the input (a
+		// byte-order mark, say): the lexer stops there, nothing else is diagnosed
+		p.Plants = nil
+		gen.AddLeadingLexFail(r, p, cfg)
+		sc.Class = "ct.lex-first"
+	}
 	if r.Chance(1, 120) || (tier == "thorough" && r.Chance(1, 30)) {
 		// more than 65536 lines in front: line numbers and line-table sizes beyond 16 bits
 		p.Seps[0] = strings.Repeat("\n", r.Range(65530, 66200)) + p.Seps[0]
